@@ -394,8 +394,51 @@ fn limits_ops(a: &[&str]) -> String {
     }
 }
 
+/// tsv <tv 0..5> <ro> <wk> <a> <e> <op set|take|revert|get> [<v>]  on the REAL TrackedSubstateValue
+/// prints: `<ret> | <cur>` where ret / cur are `none` or the u64 value; ret is `-` for set / revert
+fn tsv(a: &[&str]) -> String {
+    use radix_engine::track::state_updates::*;
+    use radix_engine_interface::types::IndexedScryptoValue;
+    let isv = |x: &str| IndexedScryptoValue::from_typed(&x.parse::<u64>().unwrap());
+    let rs = |x: &str| RuntimeSubstate::new(isv(x));
+    let wr = |k: &str, x: &str| if k == "0" { Write::Update(rs(x)) } else { Write::Delete };
+    let mut t = match a[0] {
+        "0" => TrackedSubstateValue::New(rs(a[3])),
+        "1" => TrackedSubstateValue::ReadOnly(if a[1] == "0" { ReadOnly::NonExistent } else { ReadOnly::Existent(rs(a[3])) }),
+        "2" => TrackedSubstateValue::ReadExistAndWrite(isv(a[4]), wr(a[2], a[3])),
+        "3" => TrackedSubstateValue::ReadNonExistAndWrite(rs(a[3])),
+        "4" => TrackedSubstateValue::WriteOnly(wr(a[2], a[3])),
+        _ => TrackedSubstateValue::Garbage,
+    };
+    let show = |o: Option<&IndexedScryptoValue>| match o {
+        Some(v) => format!("{}", v.as_typed::<u64>().unwrap()),
+        None => "none".to_string(),
+    };
+    let ret = match a[5] {
+        "set" => {
+            t.set(isv(a[6]));
+            "-".to_string()
+        }
+        "take" => {
+            let r = t.take();
+            show(r.as_ref())
+        }
+        "revert" => {
+            verif_tracked_substate_value_revert_writes(&mut t);
+            "-".to_string()
+        }
+        _ => show(t.get()),
+    };
+    // what a later revert would restore tells the read knowledge kept in the state
+    let cur = show(t.get());
+    let mut t2 = t.clone();
+    verif_tracked_substate_value_revert_writes(&mut t2);
+    format!("val {} {} {}", ret, cur, show(t2.get()))
+}
+
 fn run(a: &[&str]) -> String {
     match a[0] {
+        "tsv" => tsv(&a[1..]),
         "limits_io" | "limits_key" => limits_ops(a),
         "header_v1" | "header_v2_tx" | "header_v2_intent" => header_ops(a),
         "nf_run" => nf_run(&a[1..]),
